@@ -5,6 +5,7 @@ import (
 	"net/http"
 	"sort"
 	"strings"
+	"sync"
 	"sync/atomic"
 	"time"
 
@@ -126,14 +127,55 @@ func suiteFor(lits ...CfgLit) []vlib.Req {
 }
 
 // observe serves the whole suite and returns one signature per request (state of m is not changed).
+// Requests go alternately through two handlers that were obtained from Wrap when the middleware was first observed
+// (possibly while it was still passthrough, several reconfigurations ago) and through a freshly wrapped one: what a
+// handler answers must not depend on when it was wrapped, nor on what its siblings have served.
 func observe(m *cors.Middleware, suite []vlib.Req) []string {
+	lh := longLived(m)
 	inner := &vlib.Noop{}
-	h := m.Wrap(inner)
+	fresh := m.Wrap(inner)
 	out := make([]string, len(suite))
 	for i, r := range suite {
-		out[i] = vlib.Serve(h, &inner.Calls, r, nil).Sig()
+		switch i % 3 {
+		case 0:
+			out[i] = vlib.Serve(fresh, &inner.Calls, r, nil).Sig()
+		default:
+			k := i%3 - 1
+			lh.fwd[k].target = inner
+			out[i] = vlib.Serve(lh.h[k], &inner.Calls, r, nil).Sig()
+		}
 	}
 	return out
+}
+
+type longLivedHandlers struct {
+	m   *cors.Middleware
+	h   [2]http.Handler
+	fwd [2]*forward
+}
+
+var (
+	longLivedMu   sync.Mutex
+	longLivedRing [256]*longLivedHandlers // the most recently observed middlewares (older ones are simply re-wrapped)
+	longLivedNext int
+)
+
+func longLived(m *cors.Middleware) *longLivedHandlers {
+	longLivedMu.Lock()
+	defer longLivedMu.Unlock()
+	for _, e := range longLivedRing {
+		if e != nil && e.m == m {
+			return e
+		}
+	}
+	e := &longLivedHandlers{m: m}
+	for k := range e.h {
+		e.fwd[k] = &forward{}
+		e.h[k] = m.Wrap(e.fwd[k])
+	}
+	longLivedRing[longLivedNext%len(longLivedRing)] = e
+	longLivedNext++
+	return e
 }
 
 // observeBoth serves the suite with debug off and then on (it leaves debug on).
@@ -182,7 +224,7 @@ var noopHandler = http.HandlerFunc(func(http.ResponseWriter, *http.Request) {})
 // Construction routes. The documentation promises that all of them yield the same middleware (C06, C08, C09);
 // the HTTP-level checks therefore do not only look at freshly built middlewares but also at ones that carry
 // state left behind by earlier calls.
-const nRoutes = 12
+const nRoutes = 14
 
 var routeNames = [nRoutes]string{
 	"NewMiddleware(cfg)",
@@ -197,6 +239,8 @@ var routeNames = [nRoutes]string{
 	"NewMiddleware(cfg); debug mode toggled to the opposite value; requests (and Config()) in that mode; debug mode toggled back",
 	"NewMiddleware(cfg with max-age changed); requests; Reconfigure(&cfg); Reconfigure(&cfg) once more with the same pointer",
 	"NewMiddleware(cfg with one more entry in every list); requests; Reconfigure(&cfg)",
+	"NewMiddleware(c) with placeholder lists of the same lengths and the same scalars; requests; c's lists overwritten in place with cfg's values; Reconfigure(&c)",
+	"NewMiddleware(cfg with methods and header names in the other letter case); requests; Reconfigure(&cfg)",
 }
 
 // forward lets a handler obtained from Wrap early serve a wrapped handler chosen later (same w and r are passed on).
@@ -347,9 +391,20 @@ func buildVia0(route int, lit CfgLit, debug bool, early **earlyWrap, extra ...vl
 	case 9:
 		m, err = cors.NewMiddleware(cfg)
 		if err == nil {
+			// two handlers are obtained at the start; both serve requests in the opposite debug mode; after the mode
+			// is set back the sibling serves one request first; the caller gets the other one
+			e := &earlyWrap{fwd: &forward{target: noopHandler}}
+			e.h = m.Wrap(e.fwd)
+			sibling := m.Wrap(noopHandler)
+			*early = e
 			m.SetDebug(!debug)
 			warmUp(m, extra...)
+			for _, r := range append([]vlib.Req{{Method: "OPTIONS", Hdr: map[string][]string{"Origin": {"https://a.example"}, "Access-Control-Request-Method": {"DELETE"}}}}, extra...) {
+				e.h.ServeHTTP(vlib.NewRec(), r.HTTP())
+				sibling.ServeHTTP(vlib.NewRec(), r.HTTP())
+			}
 			m.SetDebug(debug)
+			sibling.ServeHTTP(vlib.NewRec(), vlib.Req{Method: "GET", Hdr: map[string][]string{"Origin": {"https://a.example"}}}.HTTP())
 		}
 	case 8:
 		m = new(cors.Middleware)
@@ -386,6 +441,58 @@ func buildVia0(route int, lit CfgLit, debug bool, early **earlyWrap, extra ...vl
 			m.SetDebug(debug)
 			warmUp(m, extra...)
 			err = m.Reconfigure(m.Config())
+		}
+	case 12:
+		// the caller keeps one Config value: first it holds placeholders, then it is edited in place and resubmitted
+		c := cfg
+		fill := func(n int, format string) []string {
+			out := make([]string, n)
+			for i := range out {
+				out[i] = fmt.Sprintf(format, i)
+			}
+			return out
+		}
+		c.Origins = fill(len(cfg.Origins), "https://placeholder%d.example")
+		c.Methods = fill(len(cfg.Methods), "PLACEHOLDER%d")
+		c.RequestHeaders = fill(len(cfg.RequestHeaders), "X-Placeholder-%d")
+		c.ResponseHeaders = fill(len(cfg.ResponseHeaders), "X-Placeholder-R-%d")
+		first := c // the value that is handed over (NewMiddleware takes it by value: the slices are shared)
+		var e0 error
+		if m, e0 = cors.NewMiddleware(first); e0 != nil {
+			m = new(cors.Middleware)
+		}
+		m.SetDebug(debug)
+		warmUp(m, append([]vlib.Req{{Method: "GET", Hdr: map[string][]string{"Origin": {"https://placeholder0.example"}}}}, extra...)...)
+		copy(c.Origins, cfg.Origins)
+		copy(c.Methods, cfg.Methods)
+		copy(c.RequestHeaders, cfg.RequestHeaders)
+		copy(c.ResponseHeaders, cfg.ResponseHeaders)
+		err = m.Reconfigure(&c)
+		if e0 != nil && debug {
+			m.SetDebug(true)
+		}
+		cfg = c
+	case 13:
+		near := lit
+		recase := func(l []string) []string {
+			out := make([]string, len(l))
+			for i, s := range l {
+				if out[i] = strings.ToUpper(s); out[i] == s {
+					out[i] = strings.ToLower(s)
+				}
+			}
+			return out
+		}
+		near.Methods, near.RequestHeaders, near.ResponseHeaders = recase(lit.Methods), recase(lit.RequestHeaders), recase(lit.ResponseHeaders)
+		var e0 error
+		if m, e0 = cors.NewMiddleware(near.Config()); e0 != nil {
+			m = new(cors.Middleware)
+		}
+		m.SetDebug(debug)
+		warmUp(m, extra...)
+		err = m.Reconfigure(&cfg)
+		if e0 != nil && debug {
+			m.SetDebug(true)
 		}
 	case 10, 11:
 		// the middleware first holds a near neighbour of the configuration: a short-cut in Reconfigure that compares the
